@@ -61,12 +61,17 @@ pub struct Val {
 }
 impl PartialEq for Val {
     fn eq(&self, o: &Val) -> bool {
-        self.depth == o.depth
+        // depth 255 plays the role of a NaN: not equal to anything, itself included
+        self.depth == o.depth && self.depth != 255
     }
 }
 impl PartialOrd for Val {
     fn partial_cmp(&self, o: &Val) -> Option<std::cmp::Ordering> {
-        self.depth.partial_cmp(&o.depth)
+        if self.depth == 255 || o.depth == 255 {
+            None
+        } else {
+            self.depth.partial_cmp(&o.depth)
+        }
     }
 }
 fn ex(v: Val) -> (u8, u32) {
@@ -540,7 +545,7 @@ impl Exec {
     /// hash of an edited board equals the hash of the same position built from scratch).
     #[allow(deprecated)]
     fn engine_edit(&mut self, c: usize, t: usize, top_b: Board, top_p: Pos, depth: usize, sq: u8, kind: Option<(Kind, Col)>) -> Result<Flow, Violation> {
-        if !(self.on(3) || self.on(8) || self.on(9)) || depth >= 8 {
+        if !(self.on(1) || self.on(3) || self.on(4) || self.on(8) || self.on(9) || self.on(18)) || depth >= 8 {
             return Ok(Flow::Go);
         }
         // stay inside the quantifier domain: the edited position must itself be a valid position, and
@@ -550,8 +555,11 @@ impl Exec {
         }
         let mut q = top_p.clone();
         q.sq[sq as usize] = kind;
-        if q == top_p || q.strict_validity_error().is_some() {
+        if q.strict_validity_error().is_some() {
             return Ok(Flow::Go);
+        }
+        if q == top_p {
+            self.stats.cnt("reach.setter_no_op_edit");
         }
         let r = guard(|| match kind {
             Some((k, col)) => top_b.set_piece(lib_kind(k), lib_col(col), lib_sq(sq)),
@@ -688,6 +696,10 @@ impl Exec {
                     v.depth = cur.depth;
                     self.stats.cnt("reach.write_of_value_eq_but_not_identical");
                 }
+                4 => {
+                    v.depth = 255; // a value that is not equal to itself
+                    self.stats.cnt("reach.write_of_non_reflexive_value");
+                }
                 _ => {}
             }
             tb.add(key, v);
@@ -727,6 +739,10 @@ impl Exec {
                 3 => {
                     v.depth = cur.1.depth;
                     self.stats.cnt("reach.write_of_value_eq_but_not_identical");
+                }
+                4 => {
+                    v.depth = 255;
+                    self.stats.cnt("reach.write_of_non_reflexive_value");
                 }
                 _ => {}
             }
